@@ -17,7 +17,7 @@ FAMS = [
                   {"exec": "asyncio", **OPTS}, [oracles.WaiterObserver], [_posts]),
     PoolMixFamily("C07", "progress-async-cancels", 1800, 40000,
                   {"exec": "asyncio", "faulty": True, "cancels": True,
-                   "cancel_kinds": ["scope", "deadline"], **OPTS},
+                   "cancel_kinds": ["scope", "deadline"], "retries": [0, 0, 1, 3], **OPTS},
                   [oracles.WaiterObserver], [_posts]),
     # cancellations with no fault and hence mostly no time-outs: a connection left
     # unusable by a cancelled request shows as a caller blocked forever
